@@ -89,10 +89,10 @@ mod u11 {
 
 # alphabets (must mirror harness.rs; used to decode concrete playback values)
 T_ALL = ['a', '7', '_', '.', '/', '*', '"', "'", '\\', '\n', ' ', 'é', '😀', 'x', 'n', '+']
-T_CMT = ['*', '/', '\n', 'a', 'é', ' ']
-T_ESC = ['\\', 'x', 'n', '"', "'", 'a', '7', '+', 'é', '😀']
-T_NUM = ['7', '_', '.', 'a', ' ', 'é']
-T_SPAN = ['*', '7', 'a', ' ', '\n', 'é', '😀']
+T_CMT = ['*', '/', '\n', 'a', 'é', ' ', '\\', '"', "'"]
+T_ESC = ['\\', 'x', 'n', '"', "'", 'a', '7', '+', 'é', '😀', '\n', '*', '/']
+T_NUM = ['7', '_', '.', 'a', ' ', 'é', '-', '\\', '"', "'", '\n', '*', '/']
+T_SPAN = ['*', '7', 'a', ' ', '\n', 'é', '😀', '\\', '"', "'", '/']
 T_HEX = ['a', '7', 'F', '+', 'é', 'x', 'g']
 
 # bounds per tier: N = max input length in chars, U = loop unwinding
